@@ -30,7 +30,7 @@ func ParseOpts() *Opts {
 	o := &Opts{}
 	flag.StringVar(&o.Tier, "tier", "quick", "quick|thorough")
 	flag.Int64Var(&o.Seed, "seed", 1, "seed of the single PRNG")
-	flag.StringVar(&o.Model, "model", "/verif/lean/.lake/build/bin/tarsmodel", "model driver binary")
+	flag.StringVar(&o.Model, "model", "/verif/lean/.lake/build/bin/tm_wire", "model driver binary")
 	flag.StringVar(&o.Out, "out", "", "result JSON file")
 	flag.StringVar(&o.Replay, "replay", "", "replay file: re-execute exactly this case")
 	flag.StringVar(&o.Extra, "extra", "", "harness-specific option")
